@@ -51,6 +51,9 @@ def main(tier):
     n, nt = progfam.replay(chk, behs, 2, ['--eager'], OWNED, tag='chain')
     total += n; nontriv += nt; samples.append(progfam.prog_text(json.loads(behs[len(behs)//2])))
     chk.coverage['exhaustive_derived_operand_chains'] = n
+    # the same chains as one lazy expression each (the evaluator may flatten/reorder same-operator chains)
+    n3, _ = progfam.replay(chk, behs, 2, [], OWNED, tag='chainL')
+    total += n3
     if tier == 'thorough':
         # seeded random (non-chain, repeated operands) programs over the same catalogue
         behs, r = progfam.generate('GenC02derived.cfg', simulate=4000, timeout=3000)
